@@ -185,7 +185,7 @@ def run_case(case_id, tier, seed, shape, kw, level, opts):
         for t in steps:
             for lab, goal in (('level_lo/%d' % t, level_t[t] >= 0), ('level_hi/%d' % t, level_t[t] <= size)):
                 rec.prove(P + '/' + lab, assume + no_trig, goal, form='Q1', info=dict(info0, kind='level', t=t))
-                if trig is not None:
+                if trig is not None and not opts.get('outside_known_only'):
                     rec.prove(P + '/' + lab + '[start>0 or inflow]', assume + [trig], goal, form='Q1',
                               info=dict(info0, kind='level', t=t), known='KF-C05-msd' if kf_msd else None)
         if 'blocks' in opts:
@@ -195,7 +195,7 @@ def run_case(case_id, tier, seed, shape, kw, level, opts):
                           info=dict(info0, kind='end', t=g[-1]))
         else:
             rec.prove(P + '/end_level', assume + no_trig, level_t[steps[-1]] == end, form='Q1', info=dict(info0, kind='end', t=steps[-1]))
-            if trig is not None:
+            if trig is not None and not opts.get('outside_known_only'):
                 rec.prove(P + '/end_level[start>0 or inflow]', assume + [trig], level_t[steps[-1]] == end, form='Q1',
                           info=dict(info0, kind='end', t=steps[-1]), known='KF-C05-msd' if kf_msd else None)
         if not coarse:
@@ -235,8 +235,9 @@ def run_case(case_id, tier, seed, shape, kw, level, opts):
                 goal = z3.Not(z3.And(*[level_t[t] > 0 for t in win]))
                 rec.prove(P + '/max_duration/%d-%d' % (win[0], win[-1]), assume + [z3.Not(trig2)], goal, form='Q1',
                           info=dict(info0, kind='msd', win=win))
-                rec.prove(P + '/max_duration/%d-%d[start>0 or inflow]' % (win[0], win[-1]), assume + [trig2], goal, form='Q1',
-                          info=dict(info0, kind='msd', win=win), known='KF-C05-msd' if kf_msd else None)
+                if not opts.get('outside_known_only'):
+                    rec.prove(P + '/max_duration/%d-%d[start>0 or inflow]' % (win[0], win[-1]), assume + [trig2], goal, form='Q1',
+                              info=dict(info0, kind='msd', win=win), known='KF-C05-msd' if kf_msd else None)
             # completeness: holding over any run of steps whose duration does NOT exceed the limit is possible (for some parameters with
             # empty start and no inflow): the rows must not forbid more than the limit says -- elapsed time, not a number of steps
             for i0, t0 in enumerate(active):
